@@ -109,7 +109,7 @@ func (state *RuntimeState) VIPAuthHandler(w http.ResponseWriter, r *http.Request
 	logger.Debugf(1, "Successful vipOTP auth for user: %s", authData.Username)
 	eventNotifier.PublishVIPAuthEvent(eventmon.VIPAuthTypeOTP, authData.Username)
 	_, err = state.updateAuthCookieAuthlevel(w, r,
-		authData.AuthType|AuthTypeSymantecVIP)
+		authData.Username, authData.AuthType|AuthTypeSymantecVIP)
 	if err != nil {
 		logger.Printf("Auth Cookie NOT found ? %s", err)
 		state.writeFailureResponse(w, r, http.StatusInternalServerError, "Failure when validating VIP token")
@@ -261,7 +261,7 @@ func (state *RuntimeState) VIPPollCheckHandler(w http.ResponseWriter, r *http.Re
 
 	// VIP Push check was  successful
 	_, err = state.updateAuthCookieAuthlevel(w, r,
-		authData.AuthType|AuthTypeSymantecVIP)
+		authData.Username, authData.AuthType|AuthTypeSymantecVIP)
 	if err != nil {
 		logger.Printf("VIPPollCheckHandler:  Failure to update AuthCookie %s", err)
 		state.writeFailureResponse(w, r, http.StatusInternalServerError, "Failure when validating VIP token")
